@@ -60,11 +60,12 @@ Theorem C08_no_panic_rr_any_state : forall (r : rr) (s : est),
 Proof. exact ext_enc_rr. Qed.
 Print Assumptions C08_no_panic_rr_any_state.
 
-(* the prefix loop never reaches `prefix_length -= 8` with prefix_length < 8 *)
-Theorem C08_prefix_loop_safe : forall (oct : bytes) (prefix : N),
-  match addr_prefix_loop OP_enc_prefix4 ENC_PREFIX_STEP4 oct prefix with Ok _ => True | _ => False end /\
-  match addr_prefix_loop OP_enc_prefix6 ENC_PREFIX_STEP6 oct prefix with Ok _ => True | _ => False end.
-Proof. exact (fun oct prefix => conj (addr_prefix_loop_safe oct prefix) (addr_prefix_loop_safe oct prefix)). Qed.
+(* the address writer of ECS and APL (the octets up to the last non-zero one, at least `minimum`; it
+   replaced the prefix loop and its `prefix_length -= 8`) has no arithmetic that can fail: from every
+   state it is a plain append of some octets *)
+Theorem C08_prefix_loop_safe : forall (a : addr) (m : N),
+  exists b : bytes, forall s : est, rr_address_with_length a m s = put b s.
+Proof. exact rr_address_with_length_put. Qed.
 Print Assumptions C08_prefix_loop_safe.
 
 (* ---- 2. EIllTyped is unreachable for typed records ---- *)
